@@ -99,18 +99,35 @@ Definition depth_ok (ls : list link) (d u : string) : bool :=
   forallb (fun x => forallb (fun y => mem_str y b) (succs ls d x)) b.
 
 (* ---------- Enforce for the two matcher families ---------- *)
+(* g(name1, name2[, domain]) = rm.HasLink: hasLinkHelper with its frontier kept as a SET
+   (`nextRoles` is a map), which is what the Go code does; Roles.bfs keeps the frontier as a
+   list with repetitions (same answers — RbacProofs.g_link_eq — but exponentially many
+   repetitions on dense graphs, so the executable model uses this form) *)
+Fixpoint bfs_set (ls : list link) (d : string) (fuel : nat) (target : string) (frontier : list string) : bool :=
+  match fuel with
+  | 0 => false
+  | S f =>
+      match frontier with
+      | [] => false
+      | _ => if mem_str target frontier then true
+             else bfs_set ls d f target (dedup (flat_map (succs ls d) frontier))
+      end
+  end.
+Definition g_link (ls : list link) (u r d : string) : bool :=
+  if String.eqb u r then true else bfs_set ls d (S max_level) r [u].
+
 Definition match_rbac (k : kind) (ls : list link) (req rule : list string) : bool :=
   match k with
   | Plain =>
       match req, rule with
       | [rs; ro; ra], [ps; po; pa] =>
-          has_link ls rs ps "" && String.eqb ro po && String.eqb ra pa
+          g_link ls rs ps "" && String.eqb ro po && String.eqb ra pa
       | _, _ => false
       end
   | WithDomains =>
       match req, rule with
       | [rs; rd; ro; ra], [ps; pd; po; pa] =>
-          has_link ls rs ps rd && String.eqb rd pd && String.eqb ro po && String.eqb ra pa
+          g_link ls rs ps rd && String.eqb rd pd && String.eqb ro po && String.eqb ra pa
       | _, _ => false
       end
   end.
